@@ -156,7 +156,7 @@ func parseExts(r *rd) (bool, []Ext) {
 // ParseClientHello reads the body of a ClientHello.
 func ParseClientHello(body []byte) (*Hello, error) {
 	r := &rd{b: body}
-	h := &Hello{}
+	h := &Hello{Suites: []int{}, Compression: []int{}}
 	h.Version = r.u16()
 	h.Random = r.take(32)
 	h.SessionID = r.v8()
